@@ -20,7 +20,8 @@ Record xml_misc_bodies (tb : table xstate) : Prop := {
     BRead RGet (BIf (CIn [63]) (BEnd (To XPiAfter)) (BCmd (PushPiData CCur) (BEnd Stay)));
   tm_piafter : t_step tb XPiAfter =
     BRead RGet (BIf (CIn [62]) (BEnd (EmitPi XData))
-                 (BIf (CIn [63]) (BEnd (To XPiAfter)) (BCmd (PushPiData CCur) (BEnd Stay))));
+                 (BIf (CIn [63]) (BCmd (PushPiData (CLit 63)) (BEnd Stay))
+                   (BCmd (PushPiData (CLit 63)) (BEnd (Reconsume XPiData)))));
   tm_markupdecl : t_step tb XMarkupDecl =
     BEat [45; 45] false (BCmd ClearComment (BEnd (To XCommentStart)))
       (BEat [91; 67; 68; 65; 84; 65; 91] false (BEnd (To XCdata))
@@ -99,8 +100,16 @@ Definition pi_first (c : N) : bool := pre_ok c && negb (memb c [9; 10; 32]).
 Definition pi_trest (c : N) : bool := pre_ok c && negb (memb c [9; 10; 32]) && negb (memb c [63]).
 Definition pi_dchar (c : N) : bool := pre_ok c && negb (memb c [63]).
 Definition pi_target_ok (t : list N) : bool := match t with [] => false | c :: r => pi_first c && forallb pi_trest r end.
+(* no "?>" inside *)
+Fixpoint no_qgt (d : list N) : bool :=
+  match d with
+  | [] => true
+  | c :: r => negb ((c =? 63) && match r with x :: _ => x =? 62 | [] => false end) && no_qgt r
+  end.
+(* the data of a processing instruction: no U+000D / U+0000, does not start with white space, holds no "?>"
+   (a '?' anywhere else, at the end included, is data) *)
 Definition pi_data_ok (d : list N) : bool :=
-  forallb pi_dchar d && match d with [] => true | c :: _ => negb (memb c [9; 10; 32]) end.
+  forallb pre_ok d && match d with [] => true | c :: _ => negb (memb c [9; 10; 32]) end && no_qgt d.
 (* the tokens of <?t d?>, oldest first *)
 Definition pi_toks (t d : list N) : list token := bad_errs t ++ bad_errs d ++ [TPi t d].
 
@@ -323,20 +332,6 @@ Lemma pi_data_char : forall b t d cu tk tn ta an av c q o k, pi_dchar c = true -
   otoks o' = char_errs c ++ otoks o.
 Proof. intros b t d cu tk tn ta an av c q o k H. unfold pi_dchar in H. cls H. rd. Qed.
 
-Lemma pi_data_chars : forall cs b t d cu tk tn ta an av q o k, forallb pi_dchar cs = true -> exists cu' o' k',
-  xsteps (mkM (b_pi b t d) XPiData false cu false None tk tn ta an av (cs ++ q) o k)
-         (mkM (b_pi b t (d ++ cs)) XPiData false cu' false None tk tn ta an av q o' k') /\
-  otoks o' = rev (bad_errs cs) ++ otoks o.
-Proof.
-  induction cs as [|c cs IH]; intros b t d cu tk tn ta an av q o k H.
-  - exists cu, o, k. rewrite app_nil_r. split; [apply xs_refl|reflexivity].
-  - simpl in H. apply andb_true_iff in H. destruct H as [H1 H2].
-    destruct (pi_data_char b t d cu tk tn ta an av c (cs ++ q) o k H1) as (o1 & k1 & S1 & T1).
-    destruct (IH b t (d ++ [c]) c tk tn ta an av q o1 k1 H2) as (cu2 & o2 & k2 & S2 & T2).
-    exists cu2, o2, k2. rewrite <- app_assoc in S2. split; [eapply xsteps_trans; [exact S1|exact S2]|].
-    rewrite T2, T1, rev_bad_cons. reflexivity.
-Qed.
-
 (* the closing "?>" *)
 Lemma pi_close : forall b t d cu tk tn ta an av q o k, exists o' k',
   xsteps (mkM (b_pi b t d) XPiData false cu false None tk tn ta an av (63 :: 62 :: q) o k)
@@ -349,6 +344,94 @@ Lemma pi_close_rc : forall b t d tk tn ta an av q o k, exists o' k',
   otoks o' = TPi t d :: otoks o.
 Proof. intros. do 2 eexists. split; [one; one; fin|reflexivity]. Qed.
 
+(* PiData meets a '?': it is pending in PiAfter, not yet part of the data *)
+Lemma pidata_q : forall b t d cu tk tn ta an av q o k, exists k',
+  xsteps (mkM (b_pi b t d) XPiData false cu false None tk tn ta an av (63 :: q) o k)
+         (mkM (b_pi b t d) XPiAfter false 63 false None tk tn ta an av q o k').
+Proof. intros. eexists. one. fin. Qed.
+Lemma pidata_q_rc : forall b t d tk tn ta an av q o k, exists k',
+  xsteps (mkM (b_pi b t d) XPiData true 63 false None tk tn ta an av q o k)
+         (mkM (b_pi b t d) XPiAfter false 63 false None tk tn ta an av q o k').
+Proof. intros. eexists. one. fin. Qed.
+(* PiAfter: '>' ends the instruction, another '?' makes the pending one data, anything else makes it data and is
+   looked at again in PiData *)
+Lemma piafter_gt : forall b t d cu tk tn ta an av q o k, exists o' k',
+  xsteps (mkM (b_pi b t d) XPiAfter false cu false None tk tn ta an av (62 :: q) o k)
+         (mkM (b_pi b [] []) XData false 62 false None tk tn ta an av q o' k') /\
+  otoks o' = TPi t d :: otoks o.
+Proof. intros. do 2 eexists. split; [one; fin|reflexivity]. Qed.
+Lemma piafter_q : forall b t d cu tk tn ta an av q o k, exists k',
+  xsteps (mkM (b_pi b t d) XPiAfter false cu false None tk tn ta an av (63 :: q) o k)
+         (mkM (b_pi b t (d ++ [63])) XPiAfter false 63 false None tk tn ta an av q o k').
+Proof. intros. eexists. oneA. fin. Qed.
+Lemma piafter_other : forall b t d cu tk tn ta an av c q o k,
+  pre_ok c = true -> (c =? 62) = false -> (c =? 63) = false -> exists o' k',
+  xsteps (mkM (b_pi b t d) XPiAfter false cu false None tk tn ta an av (c :: q) o k)
+         (mkM (b_pi b t (d ++ [63])) XPiData true c false None tk tn ta an av q o' k') /\
+  otoks o' = char_errs c ++ otoks o.
+Proof.
+  intros b t d cu tk tn ta an av c q o k H E1 E2. okc H. assert (M1 := memb1 _ _ E1). assert (M2 := memb1 _ _ E2). rd.
+Qed.
+
+Definition not_gt_first (d : list N) : Prop := match d with x :: _ => (x =? 62) = false | [] => True end.
+
+Lemma no_qgt_q : forall d, no_qgt (63 :: d) = true -> not_gt_first d /\ no_qgt d = true.
+Proof.
+  intros d H. cbn [no_qgt] in H. apply andb_true_iff in H. destruct H as [H1 H2]. split; [|exact H2].
+  destruct d as [|x r]; [exact I|]. simpl. change (63 =? 63) with true in H1. simpl in H1.
+  apply negb_true_iff in H1. exact H1.
+Qed.
+
+(* the rest of the data, then the closing "?>": from PiData, and from PiAfter with a '?' pending *)
+Lemma pi_rest : forall d, forallb pre_ok d = true -> no_qgt d = true ->
+  (forall b t D cu tk tn ta an av rest o k, exists o' k',
+     xsteps (mkM (b_pi b t D) XPiData false cu false None tk tn ta an av (d ++ 63 :: 62 :: rest) o k)
+            (mkM (b_pi b [] []) XData false 62 false None tk tn ta an av rest o' k') /\
+     otoks o' = TPi t (D ++ d) :: rev (bad_errs d) ++ otoks o) /\
+  (not_gt_first d -> forall b t D cu tk tn ta an av rest o k, exists o' k',
+     xsteps (mkM (b_pi b t D) XPiAfter false cu false None tk tn ta an av (d ++ 63 :: 62 :: rest) o k)
+            (mkM (b_pi b [] []) XData false 62 false None tk tn ta an av rest o' k') /\
+     otoks o' = TPi t (D ++ [63] ++ d) :: rev (bad_errs d) ++ otoks o).
+Proof.
+  induction d as [|c d IH]; intros OK NQ.
+  - split.
+    + intros. destruct (pi_close b t D cu tk tn ta an av rest o k) as (o1 & k1 & S1 & T1).
+      exists o1, k1. split; [exact S1|]. rewrite T1, app_nil_r. reflexivity.
+    + intros _ b t D cu tk tn ta an av rest o k.
+      destruct (piafter_q b t D cu tk tn ta an av (62 :: rest) o k) as (k1 & S1).
+      destruct (piafter_gt b t (D ++ [63]) 63 tk tn ta an av rest o k1) as (o2 & k2 & S2 & T2).
+      exists o2, k2. split; [eapply xsteps_trans; [exact S1|exact S2]|]. rewrite T2. reflexivity.
+  - simpl in OK. apply andb_true_iff in OK. destruct OK as [O1 O2].
+    destruct (c =? 63) eqn:E63.
+    + apply N.eqb_eq in E63. subst c. destruct (no_qgt_q d NQ) as [NG NQ'].
+      destruct (IH O2 NQ') as [IHP IHQ]. specialize (IHQ NG).
+      split.
+      * intros. destruct (pidata_q b t D cu tk tn ta an av (d ++ 63 :: 62 :: rest) o k) as (k1 & S1).
+        destruct (IHQ b t D 63 tk tn ta an av rest o k1) as (o2 & k2 & S2 & T2).
+        exists o2, k2. split; [eapply xsteps_trans; [exact S1|exact S2]|]. rewrite T2, rev_bad_cons. reflexivity.
+      * intros _ b t D cu tk tn ta an av rest o k.
+        destruct (piafter_q b t D cu tk tn ta an av (d ++ 63 :: 62 :: rest) o k) as (k1 & S1).
+        destruct (IHQ b t (D ++ [63]) 63 tk tn ta an av rest o k1) as (o2 & k2 & S2 & T2).
+        exists o2, k2. split; [eapply xsteps_trans; [exact S1|exact S2]|].
+        rewrite T2, rev_bad_cons, <- app_assoc. reflexivity.
+    + assert (NQ' : no_qgt d = true).
+      { cbn [no_qgt] in NQ. apply andb_true_iff in NQ. apply NQ. }
+      destruct (IH O2 NQ') as [IHP _].
+      assert (DC : pi_dchar c = true).
+      { unfold pi_dchar. rewrite O1. unfold memb. simpl. rewrite E63. reflexivity. }
+      split.
+      * intros. destruct (pi_data_char b t D cu tk tn ta an av c (d ++ 63 :: 62 :: rest) o k DC) as (o1 & k1 & S1 & T1).
+        destruct (IHP b t (D ++ [c]) c tk tn ta an av rest o1 k1) as (o2 & k2 & S2 & T2).
+        exists o2, k2. split; [eapply xsteps_trans; [exact S1|exact S2]|].
+        rewrite T2, T1, rev_bad_cons, <- app_assoc. reflexivity.
+      * intros NG b t D cu tk tn ta an av rest o k. simpl in NG.
+        destruct (piafter_other b t D cu tk tn ta an av c (d ++ 63 :: 62 :: rest) o k O1 NG E63) as (o1 & k1 & S1 & T1).
+        destruct (pi_data_rc b t (D ++ [63]) tk tn ta an av c (d ++ 63 :: 62 :: rest) o1 k1 (memb1 _ _ E63)) as (k2 & S2).
+        destruct (IHP b t ((D ++ [63]) ++ [c]) c tk tn ta an av rest o1 k2) as (o3 & k3 & S3 & T3).
+        exists o3, k3. split; [eapply xsteps_trans; [exact S1|eapply xsteps_trans; [exact S2|exact S3]]|].
+        rewrite T3, T1, rev_bad_cons, <- !app_assoc. reflexivity.
+Qed.
+
 (* <?target data?> *)
 Theorem pi_lex : forall t d b cu tk tn ta an av rest o k,
   bg_clean b -> pi_target_ok t = true -> pi_data_ok d = true ->
@@ -359,7 +442,8 @@ Theorem pi_lex : forall t d b cu tk tn ta an av rest o k,
 Proof.
   intros t d b cu tk tn ta an av rest o k CL TO DO.
   destruct t as [|t0 tr]; [discriminate|]. simpl in TO. apply andb_true_iff in TO. destruct TO as [T1 T2].
-  unfold pi_data_ok in DO. apply andb_true_iff in DO. destruct DO as [D1 D2].
+  unfold pi_data_ok in DO. apply andb_true_iff in DO. destruct DO as [DO D3].
+  apply andb_true_iff in DO. destruct DO as [D1 D2].
   set (Q2 := d ++ [63; 62] ++ rest).
   destruct (data_lt tb TB simd ent c1 sk b cu tk tn ta an av (63 :: t0 :: tr ++ 32 :: Q2) o k) as (k1 & S1).
   destruct (tagstate_qm b 60 tk tn ta an av (t0 :: tr ++ 32 :: Q2) o k1) as (k2 & S2).
@@ -375,14 +459,23 @@ Proof.
       destruct (pi_after_to_data b ([t0] ++ tr) [] 32 tk tn ta an av 63 (62 :: rest) o4 k5 eq_refl eq_refl) as (o6 & k6 & S6 & E6).
       destruct (pi_close_rc b ([t0] ++ tr) [] tk tn ta an av rest o6 k6) as (o7 & k7 & S7 & T7).
       exists o7, k7. split; [|rewrite T7, E6; reflexivity]. simpl app. eapply xsteps_trans; [exact S6|exact S7].
-    - simpl in D1. apply andb_true_iff in D1. destruct D1 as [D10 D1r]. apply negb_true_iff in D2.
-      assert (D10' := D10). unfold pi_dchar in D10'. apply andb_true_iff in D10'. destruct D10' as [OK0 N63]. apply negb_true_iff in N63.
+    - simpl in D1. apply andb_true_iff in D1. destruct D1 as [OK0 D1r]. apply negb_true_iff in D2.
       destruct (pi_after_to_data b ([t0] ++ tr) [] 32 tk tn ta an av d0 (dr ++ [63; 62] ++ rest) o4 k5 OK0 D2) as (o6 & k6 & S6 & E6).
-      destruct (pi_data_rc b ([t0] ++ tr) [] tk tn ta an av d0 (dr ++ [63; 62] ++ rest) o6 k6 N63) as (k7 & S7).
-      destruct (pi_data_chars dr b ([t0] ++ tr) ([] ++ [d0]) d0 tk tn ta an av ([63; 62] ++ rest) o6 k7 D1r) as (cu8 & o8 & k8 & S8 & E8).
-      destruct (pi_close b ([t0] ++ tr) (([] ++ [d0]) ++ dr) cu8 tk tn ta an av rest o8 k8) as (o9 & k9 & S9 & T9).
-      exists o9, k9. split; [|rewrite T9, E8, E6, rev_bad_cons; reflexivity]. simpl app in *.
-      eapply xsteps_trans; [exact S6|]. eapply xsteps_trans; [exact S7|]. eapply xsteps_trans; [exact S8|exact S9]. }
+      destruct (d0 =? 63) eqn:E63.
+      + (* the data starts with '?' *)
+        apply N.eqb_eq in E63. subst d0. destruct (no_qgt_q dr D3) as [NG NQ'].
+        destruct (pi_rest dr D1r NQ') as [_ PQ]. specialize (PQ NG).
+        destruct (pidata_q_rc b ([t0] ++ tr) [] tk tn ta an av (dr ++ [63; 62] ++ rest) o6 k6) as (k7 & S7).
+        destruct (PQ b ([t0] ++ tr) [] 63 tk tn ta an av rest o6 k7) as (o8 & k8 & S8 & T8).
+        exists o8, k8. split; [|rewrite T8, E6, rev_bad_cons; reflexivity]. simpl app in *.
+        eapply xsteps_trans; [exact S6|]. eapply xsteps_trans; [exact S7|exact S8].
+      + assert (NQ' : no_qgt dr = true).
+        { cbn [no_qgt] in D3. apply andb_true_iff in D3. apply D3. }
+        destruct (pi_rest dr D1r NQ') as [PP _].
+        destruct (pi_data_rc b ([t0] ++ tr) [] tk tn ta an av d0 (dr ++ [63; 62] ++ rest) o6 k6 (memb1 _ _ E63)) as (k7 & S7).
+        destruct (PP b ([t0] ++ tr) ([] ++ [d0]) d0 tk tn ta an av rest o6 k7) as (o8 & k8 & S8 & T8).
+        exists o8, k8. split; [|rewrite T8, E6, rev_bad_cons; reflexivity]. simpl app in *.
+        eapply xsteps_trans; [exact S6|]. eapply xsteps_trans; [exact S7|exact S8]. }
   destruct X as (o' & k' & SX & TX). rewrite (b_pi_clean b CL) in SX.
   exists o', k'. split.
   - eapply xsteps_trans; [exact S1|]. eapply xsteps_trans; [exact S2|]. eapply xsteps_trans; [exact S3|].
